@@ -194,6 +194,35 @@ def run(prog, tier):
                          f"the pool must map (ordered) over (n, chain) pairs in chain order and store the returned chains back: "
                          f"{why}; adv_func body {body}", c.module.relpath, padv.lineno))
 
+    # ... read on the method as written: results gathered as the workers FINISH (a completion callback that appends, or
+    # imap_unordered) are in completion order, whatever else the method does - slot i no longer holds chain i
+    rawp = prog.as_written()
+    rc_, rfn = rawp.method("ChainPool", "advance")
+    unordered = []
+    nested = {n_.name: n_ for n_ in ast.walk(rfn) if isinstance(n_, (ast.FunctionDef, ast.Lambda)) and n_ is not rfn and hasattr(n_, "name")}
+    stored = {x.id for s_ in ast.walk(rfn) if isinstance(s_, ast.Assign) and any(U(t_) == "self.chains" for t_ in s_.targets)
+              for x in ast.walk(s_.value) if isinstance(x, ast.Name)}
+    for n_ in ast.walk(rfn):
+        if not (isinstance(n_, ast.Call) and isinstance(n_.func, ast.Attribute)):
+            continue
+        if n_.func.attr == "imap_unordered":
+            unordered.append(f"line {n_.lineno}: `imap_unordered` yields results as they complete")
+        if n_.func.attr in ("apply_async", "map_async", "starmap_async"):
+            cb = next((k.value for k in n_.keywords if k.arg == "callback"), n_.args[3] if len(n_.args) > 3 else None)
+            cbf = nested.get(cb.id) if isinstance(cb, ast.Name) else None
+            grows = set()
+            if cbf is not None:
+                grows = {x.func.value.id for x in ast.walk(cbf) if isinstance(x, ast.Call) and isinstance(x.func, ast.Attribute)
+                         and x.func.attr in ("append", "extend", "insert") and isinstance(x.func.value, ast.Name)}
+            elif isinstance(cb, ast.Attribute) and cb.attr in ("append", "extend") and isinstance(cb.value, ast.Name):
+                grows = {cb.value.id}
+            if grows & stored:
+                unordered.append(f"line {n_.lineno}: the completion callback of `{n_.func.attr}` appends to `{sorted(grows & stored)[0]}`, "
+                                 f"which is then stored as self.chains")
+    obs.append(struct_ob("pool-order", qual(rc_, rfn) + "{as written}", not unordered,
+                         "the chains come back in the order in which the workers finish, not in the order they were handed out: "
+                         + "; ".join(unordered[:2]), rc_.module.relpath, rfn.lineno))
+
     # ---------------------------------------------------------------- entry-resolves
     for cname in mcmc.SAMPLERS:
         ci = prog.cls(cname)
